@@ -56,12 +56,14 @@ COMMON_ASSUME = ['the Lean model is hand-written; it is tied to the Rust source 
 
 PROPS = {
     'C01': dict(
+        extra_modules=['GraphrsModel.Props.Core'],
         gens=[('store', 'general', 4000, 60000, 14)],
         spec_fields=[r'res', r'nodes', r'edges'],
         model_fields=[r'res', r'nodes', r'edges', r'snap\..*', r'poison', r'agree\.wf'],
         nontrivial=store_nontrivial, hist=store_hist, rule=STORE_RULE, assumptions=COMMON_ASSUME,
     ),
     'C02': dict(
+        extra_modules=['GraphrsModel.Props.Core'],
         gens=[('store', 'general', 3000, 40000, 12)],
         spec_fields=[r'nodes', r'edges', r'node', r'idx', r'byidx', r'hasnodes', r'ge', r'ges', r'efn', r'efns', r'ien',
                      r'iens', r'oen', r'oens', r'nb', r'sn', r'pn', r'son', r'smap', r'pmap', r'bfs', r'ehw'],
@@ -69,6 +71,7 @@ PROPS = {
         nontrivial=store_nontrivial, hist=store_hist, rule=STORE_RULE, assumptions=COMMON_ASSUME,
     ),
     'C03': dict(
+        extra_modules=['GraphrsModel.Props.Core'],
         gens=[('store', 'weights', 4000, 60000, 12)],
         spec_fields=[r'travs', r'travp', r'edges'],
         model_fields=[r'travs', r'travp', r'edges', r'snap\.successors_vec', r'snap\.predecessors_vec', r'poison', r'agree\.wf'],
@@ -86,6 +89,7 @@ PROPS = {
                                      '(triplets -> CSR conversion is library code)'],
     ),
     'C15': dict(
+        extra_modules=['GraphrsModel.Props.Core'],
         gens=[('store', 'general', 3000, 40000, 12)],
         spec_fields=[r'sub\d+', r'rev', r'setw', r'single'],
         model_fields=[r'sub\d+', r'rev', r'setw', r'single', r'edges', r'nodes', r'agree\.wfderived'],
